@@ -1,6 +1,5 @@
 """C15 — the message-driven state machine never loses early messages or skips a state."""
 META = {
-    "disabled": True,
     "level": "model_checking",
     "text": "TLC exhaustively checks a process-level model of AsyncMachine.Execute, its per-state transition goroutine (Initiate, "
             "100 ms ticker, CanTransition) and BaseAsyncState for every interleaving of deliveries (current, earlier and later "
